@@ -580,7 +580,7 @@ func TestVF_C12(t *testing.T) {
 		"(B) plus one zero-length fragment at every cut offset or one exact duplicate at every arrival position, (C) PRNG interleavings "+
 		"of three consecutive message sequences with duplicates, zero-length fragments and several fragments per record; sender: "+
 		"fragmentHandshake over every (length, MTU); end-to-end handshakes at MTU 32/60/100 with reordered datagrams. Distinct = distinct arrival sequences")
-	res.Assume("fragments of one message form a partition of it (plus zero-length and exactly duplicated fragments), as in the property's quantifier; "+
+	res.Assume("fragments of one message form a partition of it (plus zero-length and exactly duplicated fragments), as in the property's quantifier; " +
 		"overlapping re-fragmentation and inconsistent total lengths are hostile input (C08)")
 	vfC12Reassembly(t, res)
 	vfC12Sender(res)
